@@ -44,6 +44,9 @@ def assign_values(rng, spec):
     kind = rng.choice(["default", "str", "int", "int", "enum", "tuple", "mixed", "enum_inst"])
     n = len(spec["states"])
     uid = spec["uid"]
+    if kind == "enum_inst" and (spec.get("style") or spec.get("mixin") or any(s.get("name") for s in spec["states"]) or any(
+            refs[g] for refs in spec["state_refs"].values() for g in refs)):
+        kind = "enum"       # from_enum cannot carry inline enter/exit callbacks or display names
     exprs = [None] * n
     if kind == "str":
         exprs = rng.sample(STR_POOL, n)
@@ -62,7 +65,7 @@ def assign_values(rng, spec):
         exprs = [f"StEnum_{uid}.{st['id']}" for st in spec["states"]]
     for st, e in zip(spec["states"], exprs):
         st["value"] = {"expr": e} if e is not None else None
-    if rng.random() < 0.3 and n >= 2:
+    if rng.random() < 0.3 and n >= 2 and kind != "enum_inst":
         a, b = rng.sample(range(n), 2)
         spec["states"][a]["name"] = "Same name"
         spec["states"][b]["name"] = "Same name"
